@@ -42,7 +42,7 @@ func oracleIgnore(c *Ctx) error {
 				if !(a == "." || a == p || under(a, p)) {
 					continue
 				}
-				if ignoredBy(ign, p) {
+				if cl := ignoreClass(ign, p); cl != "no" {
 					dirWithExcluded = dirWithExcluded || a != p
 					continue
 				}
@@ -92,7 +92,7 @@ func oracleIgnore(c *Ctx) error {
 		if len(ign) == 0 {
 			for p := range c.Pre.Work.Files {
 				_, tracked := c.Pre.IdxMap[p]
-				if !tracked && !rep.Untracked[p] {
+				if !tracked && !rep.Untracked[p] && p != ".goitignore" {
 					return fmt.Errorf("no .goitignore, yet status hides the untracked file %q", p)
 				}
 			}
@@ -165,6 +165,18 @@ func init() {
 			w := g.E.Box.Work
 			return goit("add", g.Pick([]string{w, "../w", w + "/.goit/config", "../w/.goit/HEAD", w + "/.goit", "../w/.", w + "/."}, "absForm"))
 		}},
+		opGen{"write-ext-dir", always, func(g *G) Step {
+			// a DIRECTORY whose name ends in an ignorable extension (what happens to it is unspecified), holding a file
+			p := g.Pick([]string{"out", "gen", "x"}, "stem") + g.Pick(IgnoreExts, "ext") + "/" + g.Pick([]string{"o", "a.go"}, "leaf")
+			if !g.pathUsable(p) || g.E.H.PathsEver[p] {
+				p = g.NewPath()
+			}
+			return Step{Op: "write", Path: p, Data: g.SmallContent()}
+		}},
+		opGen{"dir2file", func(g *G) bool { return len(g.WorkDirs()) > 0 }, func(g *G) Step {
+			// a directory (tracked or not) is removed and a regular file takes its name
+			return Step{Op: "dir2file", Path: g.Pick(g.WorkDirs(), "dir"), Data: g.SmallContent()}
+		}},
 		opGen{"reset-hard-0", hasCommit, func(g *G) Step { return goit("reset", "--hard", "HEAD@{0}") }},
 		opGen{"restore-dir", hasTracked, func(g *G) Step {
 			ds := trackedDirs(g.E.Cur.Tracked())
@@ -176,5 +188,5 @@ func init() {
 	)
 }
 
-var ignoreWeights = Weights{"write-new": 14, "write-ignored": 16, "modify": 6, "remove-file": 3, "add": 8, "add-dot": 16, "add-dir": 14, "add-goit-path": 4, "add-abs": 5, "ignore-more": 3,
+var ignoreWeights = Weights{"write-new": 14, "write-ignored": 16, "modify": 6, "remove-file": 3, "add": 8, "add-dot": 16, "add-dir": 14, "add-goit-path": 4, "add-abs": 5, "ignore-more": 3, "write-ext-dir": 4, "dir2file": 3,
 	"status": 10, "commit": 8, "reset-hard-0": 4, "restore-dir": 4, "rm": 2}
